@@ -210,7 +210,7 @@ impl<'a> Ctx<'a> {
                             let what = first_diff(&strip_pos(exp), &strip_pos(got));
                             let sig = if c.label.starts_with("block-string") { "block-string-raw".to_string() } else { format!("structure:{what}") };
                             self.rep.fail("O", &sig, &format!("{:?} parses to a different document than it denotes: expected {} got {}", c.text, strip_pos(exp).to_line(), strip_pos(got).to_line()), c.json());
-                        } else if got != exp {
+                        } else if got != exp && !c.label.starts_with("block-string") {
                             let what = first_diff(exp, got);
                             self.rep.fail("O", &format!("positions:{what}"), &format!("{:?}: a reported position is not the token start: expected {} got {}", c.text, exp.to_line(), got.to_line()), c.json());
                         }
